@@ -11,6 +11,47 @@ fn alpha_front(src: &str) -> Vec<penne::alpha::common::Declaration> {
 
 fn count(hay: &str, needle: &str) -> usize { hay.matches(needle).count() }
 
+/// whole first-generation pipeline after expansion, without the LLVM generator, in the order of
+/// alpha::Compiler::analyze_and_resolve: the sorted error codes and the lint codes
+fn alpha_rest(decls: Vec<penne::alpha::common::Declaration>) -> String {
+    if let Err(errors) = penne::alpha::resolver::check_surface_level_errors(&decls) {
+        return format!("errors={:?} lints=[] stage=surface", errors.sorted().codes()).replace(' ', "");
+    }
+    let mut decls = penne::alpha::scoper::analyze(decls);
+    decls.sort_by_key(|x| penne::alpha::scoper::get_container_depth(x, u32::MAX));
+    let offset = decls.partition_point(|x| penne::alpha::scoper::is_container(x));
+    let functions = decls.split_off(offset);
+    let containers = decls;
+    let mut typer = penne::alpha::typer::Typer::default();
+    let mut analyzer = penne::alpha::analyzer::Analyzer::default();
+    let mut linter = penne::alpha::linter::Linter::default();
+    let mut acc: Result<Vec<penne::alpha::resolved::Declaration>, penne::alpha::error::Errors> = Ok(Vec::new());
+    for (group, are_containers) in [(containers, true), (functions, false)] {
+        for d in &group { typer.forward_declare_structure(d); }
+        let group: Vec<_> = if are_containers { group } else {
+            let g: Vec<_> = group.into_iter().map(|x| typer.declare(x)).collect();
+            for d in &g { analyzer.declare(d); }
+            g
+        };
+        for d in group {
+            let d = if are_containers { typer.declare(d) } else { d };
+            let d = typer.analyze(d);
+            let d = analyzer.analyze(d);
+            linter.lint(&d);
+            let resolved = penne::alpha::resolver::resolve(d);
+            acc = penne::alpha::resolver::accumulate(acc, resolved);
+        }
+    }
+    let lints: Vec<penne::alpha::linter::Lint> = linter.into();
+    let lint_codes: Vec<u16> = lints.iter().map(|x| x.code()).collect();
+    // diag: FNV-1a hash of the complete diagnostics (variants, names, locations) in their reported order (C13: determinism)
+    let (codes, dump) = match acc { Ok(_) => (Vec::new(), String::new()), Err(e) => { let e = e.sorted(); (e.codes(), format!("{:?}", e)) } };
+    let dump = format!("{}|{:?}", dump, lints);
+    let mut h: u64 = 0xcbf29ce484222325;
+    for b in dump.bytes() { h ^= b as u64; h = h.wrapping_mul(0x100000001b3); }
+    format!("errors={:?} lints={:?} stage=resolved diag={:016x}", codes, lint_codes, h).replace(", ", ",")
+}
+
 fn main() {
     let args: Vec<String> = std::env::args().collect();
     if args.len() < 3 { eprintln!("usage: replay_runner <mode> <file>"); std::process::exit(64); }
@@ -47,38 +88,35 @@ fn main() {
                 let src = String::from_utf8(bytes).unwrap();
                 let decls = alpha_front(&src);
                 let decls = penne::alpha::expander::expand_one("replay.pn", decls);
-                if let Err(errors) = penne::alpha::resolver::check_surface_level_errors(&decls) {
-                    return format!("errors={:?} lints=[] stage=surface", errors.sorted().codes()).replace(' ', "");
+                alpha_rest(decls)
+            }
+            // several modules in one input (sections introduced by lines `//// FILE: <path>`), expanded together as the
+            // compiler does for one invocation; every module is then analysed on its own; prints the codes per module
+            "alphamulti" => {
+                let src = String::from_utf8(bytes).unwrap();
+                let mut modules: Vec<(std::path::PathBuf, Vec<penne::alpha::common::Declaration>)> = Vec::new();
+                let mut cur: Option<(String, String)> = None;
+                for line in src.lines() {
+                    if let Some(p) = line.strip_prefix("//// FILE: ") {
+                        if let Some((path, text)) = cur.take() {
+                            let toks = penne::alpha::lexer::lex(&text, &path);
+                            modules.push((path.parse().unwrap(), penne::alpha::parser::parse(toks)));
+                        }
+                        cur = Some((p.trim().to_string(), String::new()));
+                    } else if let Some((_, text)) = cur.as_mut() { text.push_str(line); text.push('\n'); }
                 }
-                let mut decls = penne::alpha::scoper::analyze(decls);
-                decls.sort_by_key(|x| penne::alpha::scoper::get_container_depth(x, u32::MAX));
-                let offset = decls.partition_point(|x| penne::alpha::scoper::is_container(x));
-                let functions = decls.split_off(offset);
-                let containers = decls;
-                let mut typer = penne::alpha::typer::Typer::default();
-                let mut analyzer = penne::alpha::analyzer::Analyzer::default();
-                let mut linter = penne::alpha::linter::Linter::default();
-                let mut acc: Result<Vec<penne::alpha::resolved::Declaration>, penne::alpha::error::Errors> = Ok(Vec::new());
-                for (group, are_containers) in [(containers, true), (functions, false)] {
-                    for d in &group { typer.forward_declare_structure(d); }
-                    let group: Vec<_> = if are_containers { group } else {
-                        let g: Vec<_> = group.into_iter().map(|x| typer.declare(x)).collect();
-                        for d in &g { analyzer.declare(d); }
-                        g
-                    };
-                    for d in group {
-                        let d = if are_containers { typer.declare(d) } else { d };
-                        let d = typer.analyze(d);
-                        let d = analyzer.analyze(d);
-                        linter.lint(&d);
-                        let resolved = penne::alpha::resolver::resolve(d);
-                        acc = penne::alpha::resolver::accumulate(acc, resolved);
-                    }
+                if let Some((path, text)) = cur.take() {
+                    let toks = penne::alpha::lexer::lex(&text, &path);
+                    modules.push((path.parse().unwrap(), penne::alpha::parser::parse(toks)));
                 }
-                let lints: Vec<penne::alpha::linter::Lint> = linter.into();
-                let lint_codes: Vec<u16> = lints.iter().map(|x| x.code()).collect();
-                let codes = match acc { Ok(_) => Vec::new(), Err(e) => e.sorted().codes() };
-                format!("errors={:?} lints={:?} stage=resolved", codes, lint_codes).replace(", ", ",")
+                penne::alpha::expander::expand(&mut modules[..]);
+                let mut out = Vec::new();
+                for (i, (_path, decls)) in modules.into_iter().enumerate() {
+                    let r = alpha_rest(decls);
+                    let codes = r.split_whitespace().next().unwrap_or("").replace("errors=", "");
+                    out.push(format!("m{}={}", i, codes));
+                }
+                out.join(" ")
             }
             // first-generation lexer: spans of all tokens (C14/C13: spans lie inside the source and cover the token)
             "alphalex" => {
